@@ -223,6 +223,26 @@ def run(prop, tier):
                     records.append(dict(id=rid, kind="order", vals=FX.fixseq([float(vals[s_][ti]) for s_ in stages])))
                     index[rid] = dict(model=mname, cascade=dict(cd_), pops="all", ti=ti, stages=stages, vals=[float(vals[s_][ti]) for s_ in stages])
                     rid += 1
+        # a later stage that lists a characteristic and one of its own compartments counts that compartment twice: refused, or at least not
+        # reported larger than the stage before
+        for ch_ in P.framework.characs.index:
+            if isinstance(P.framework.characs.at[ch_, "denominator"], str):
+                continue
+            inc_ = [c_ for c_ in P.framework.get_charac_includes(ch_) if c_ in wcomps or True][:1]
+            if not inc_:
+                continue
+            cd_ = sc.odict([("S1", [ch_]), ("S2", [ch_, inc_[0]])])
+            try:
+                casc_mod.sanitize_cascade(P.framework, cd_)
+            except Exception:
+                break  # refused: fine
+            vals, t = get_cascade_vals(res, cd_, pops="all")
+            stages = list(vals.keys())
+            for ti in range(0, len(t), max(1, len(t) // 12)):
+                records.append(dict(id=rid, kind="order", vals=FX.fixseq([float(vals[s_][ti]) for s_ in stages])))
+                index[rid] = dict(model=mname, cascade=dict(cd_), pops="all", ti=ti, stages=stages, vals=[float(vals[s_][ti]) for s_ in stages])
+                rid += 1
+            break
         cov["adhoc_three_stage_cascades_accepted"] = cov.get("adhoc_three_stage_cascades_accepted", 0) + len(valid3)
         valid_adhoc = []
         for cd_ in adhoc:
